@@ -2,6 +2,31 @@
 import re
 
 PROPS = {
+    "C14": {
+        "modules": ["Ark.Props.C14"],
+        "claimed": False,
+        "parallel": True,
+        "rule": "one op line per (operation, thread-pool size T, input); distinct = distinct op line; non-trivial = input length > 1",
+        "exhaustive": ["all vectors of length <= 2 over F_13 for batch inversion, T in {1,2,3,5,7,8,13,16,64}"],
+        "partial": ["rayon's actual scheduling / work stealing cannot be exhibited by the model: proved is that each chunked computation equals the serial one for EVERY thread count T >= 1 (pure functions of T); the run-time evidence is the correspondence inside explicit rayon pools of size 1..16 and 64 and the byte-identical output of the serial build"],
+        "assumptions": ["fork-join determinism of safe Rust / rayon"],
+    },
+    "C08": {
+        "modules": ["Ark.Props.C08"],
+        "claimed": False,
+        "rule": "one op line per polynomial operator on a pair of operands; distinct = distinct op line; non-trivial = some operand of length > 1",
+        "exhaustive": ["all canonical dense pairs of length <= 3 over F_5 (<= 4 thorough) for the core ops"],
+        "partial": [],
+        "assumptions": ["FFT-based multiplication is modelled as naive multiplication + the code's normalisation (FFT correctness is C07)"],
+    },
+    "C18": {
+        "modules": ["Ark.Props.C18"],
+        "claimed": False,
+        "rule": "one op line per (type, value) serialization or (type, byte string) deserialization; distinct = distinct op line; non-trivial = non-empty payload",
+        "exhaustive": [],
+        "partial": ["the actual abort on allocation failure is a runtime behaviour observed only by the harness (child process under a memory limit); the model records allocation events and the theorems bound them"],
+        "assumptions": ["element sizes (size_of::<T>()) are passed by the harness"],
+    },
     "C05": {
         "modules": ["Ark.Props.C05"],
         "claimed": False,
